@@ -483,6 +483,11 @@ func (m *Mux) serveHTTP(w http.ResponseWriter, r *http.Request) error {
 		hasBody:        r.ContentLength > 0 || r.ContentLength == -1,
 	}
 	herr := hd.handler(&m.opts, stream)
+	if !stream.sentHeader {
+		// Header metadata the handler set but that no message flushed
+		// (no reply, or an error) still belongs to the response.
+		setOutgoingHeader(w.Header(), stream.header)
+	}
 	// Handle stats.
 	if sh := m.opts.statsHandler; sh != nil {
 		endTime := time.Now()
